@@ -251,6 +251,7 @@ type State struct {
 	touched   map[string]bool
 	quiet     bool // the rest of this period stays without further calls (motif.go quietDeepTouch)
 	regrownAt []regrown
+	twins     map[string]*ObjSpec // motif.go float twins: the value to assign at the next visit
 	locked    []string
 	// frozenAt[path of dict-struct field] = the record may currently hold a frozen (shared)
 	// pointer there. Persistent across Writes.
